@@ -13,7 +13,11 @@
 //            the usage() calls: e = empty argument vector, g = a vector giving every option/toggle declared so far and
 //            positionals, f = a vector that fails (exception caught), c = the parser is move-CONSTRUCTED into a new object
 //            (the old one destroyed), a = it is move-ASSIGNED into another, already used parser object.  The usage text
-//            must not depend on any of them.
+//            must not depend on any of them.  x = a failing parse() with usage() called INSIDE the exception handler and again
+//            after it (both texts must agree), y = greedy_postionals().
+//   pos may carry a fourth part ":<style>" (letters D P G C T B): how the same declaration is written down, see run_usage
+//   a toggle default i<k> goes through default_value(int) instead of default_value(bool); an opt of kind k (K) applies its
+//   setters through the reference KEPT from the first request (no new request)
 //   groups : an entry "name:descr:L" is a group created LATE (together with the late options)
 //   pos may carry a third part ":<fmt>": the FORMATTING STATE put on every target stream just before usage() is called
 //            (after the prior content was written): '.'-separated items  f<hex byte> fill character, L|R|I adjustfield,
@@ -41,6 +45,7 @@
 #include <nitro/io/terminal.hpp>
 
 #include <algorithm>
+#include <map>
 #include <cstdlib>
 #include <memory>
 #include <new>
@@ -138,19 +143,40 @@ static std::string run_usage(const std::vector<std::string>& w)
     const std::string prior = unhex(w[6]);
     arena::overflow = false;
     std::string a, b, c, d;
-    bool order_ok = true;
+    bool order_ok = true, handler_differs_any = false;
     try
     {
-        // the parser lives on the heap so that it can be moved into another object (hist letters c and a)
-        auto pp = std::make_unique<no::parser>(unhex(w[1]), unhex(w[2]), unhex(w[3]));
-        std::string posfield = w[4], hist, fmt;
+        std::string posfield = w[4], hist, fmt, style;
         {
             auto parts = split_on(posfield, ':');
             posfield = parts[0];
             if (parts.size() > 1) hist = parts[1];
             if (parts.size() > 2) fmt = parts[2];
-            if (parts.size() > 3) return "BADCASE";
+            if (parts.size() > 3) style = parts[3];
+            if (parts.size() > 4) return "BADCASE";
         }
+        // style: HOW the same declaration is written down (the model ignores it):
+        //   D rely on default arguments / default member values wherever the case's value equals the default
+        //     (parser(), parser(app), group(name), option(name), no metavar("ARG"), no positional_metavar("args"), no default_value(false))
+        //   P declare the default group's options through parser::option/multi_option/toggle instead of parser::group()
+        //   G fetch a named group again by name (with another description) for every declaration instead of keeping the reference
+        //   C apply the setters as one fluent chain on what each setter returns
+        //   T set metavar and default twice (a longer temporary value first), env and short name twice with the same value
+        //   B afterwards call the public pieces directly through the kept references (base::format, format_name, format_synopsis,
+        //     format_value, format_default, group::usage): every option block and every group section must occur in the text
+        auto has = [&](char ch) { return style.find(ch) != std::string::npos; };
+        const bool chain = has('C'), twice = has('T'), defaults = has('D');
+        // the parser lives on the heap so that it can be moved into another object (hist letters c and a)
+        const std::string app = unhex(w[1]), about = unhex(w[2]), defname = unhex(w[3]);
+        std::unique_ptr<no::parser> pp;
+        if (defaults && about.empty() && defname == "arguments" && app == "main")
+            pp = std::make_unique<no::parser>();
+        else if (defaults && about.empty() && defname == "arguments")
+            pp = std::make_unique<no::parser>(app);
+        else if (defaults && defname == "arguments")
+            pp = std::make_unique<no::parser>(app, about);
+        else
+            pp = std::make_unique<no::parser>(app, about, defname);
         // the formatting state of a target stream
         bool badfmt = false;
         auto apply_fmt = [&](std::ostream& os) {
@@ -191,7 +217,7 @@ static std::string run_usage(const std::vector<std::string>& w)
         }
         else if (posfield != "0")
             return "BADCASE";
-        pp->positional_metavar(unhex(w[5]));
+        if (!(defaults && unhex(w[5]) == "args")) pp->positional_metavar(unhex(w[5]));
         // groups[0] is the default group, groups[i] the i-th listed named group; a group marked ":L" is created
         // late (together with the late options, i.e. after parse()/move/usage() have already happened)
         std::vector<no::group*> groups;
@@ -207,12 +233,70 @@ static std::string run_usage(const std::vector<std::string>& w)
             }
         auto create_groups = [&](bool late) {
             for (std::size_t i = 0; i < gdefs.size(); i++)
-                if ((gdefs[i].size() == 3) == late) groups[i + 1] = &pp->group(unhex(gdefs[i][0]), unhex(gdefs[i][1]));
+                if ((gdefs[i].size() == 3) == late)
+                {
+                    const std::string gname = unhex(gdefs[i][0]), gdescr = unhex(gdefs[i][1]);
+                    groups[i + 1] = (defaults && gdescr.empty()) ? &pp->group(gname) : &pp->group(gname, gdescr);
+                }
         };
         create_groups(false);
+        bool bad = false, any_late = false;
+        auto group_of = [&](std::size_t gi) -> no::group& {
+            if (has('G'))
+            {
+                // asking for an existing group again returns that group; the description given now is ignored
+                no::group& again = gi == 0 ? pp->group() : pp->group(unhex(gdefs[gi - 1][0]), "a description given with a later request");
+                if (&again != groups[gi]) bad = true;
+                return again;
+            }
+            return *groups[gi];
+        };
+        auto request_option = [&](std::size_t gi, const std::string& name, const std::string& descr) -> no::option& {
+            const bool one = defaults && descr.empty();
+            if (gi == 0 && has('P')) return one ? pp->option(name) : pp->option(name, descr);
+            no::group& g = group_of(gi);
+            return one ? g.option(name) : g.option(name, descr);
+        };
+        auto request_multi = [&](std::size_t gi, const std::string& name, const std::string& descr) -> no::multi_option& {
+            const bool one = defaults && descr.empty();
+            if (gi == 0 && has('P')) return one ? pp->multi_option(name) : pp->multi_option(name, descr);
+            no::group& g = group_of(gi);
+            return one ? g.multi_option(name) : g.multi_option(name, descr);
+        };
+        auto request_toggle = [&](std::size_t gi, const std::string& name, const std::string& descr) -> no::toggle& {
+            const bool one = defaults && descr.empty();
+            if (gi == 0 && has('P')) return one ? pp->toggle(name) : pp->toggle(name, descr);
+            no::group& g = group_of(gi);
+            return one ? g.toggle(name) : g.toggle(name, descr);
+        };
         std::vector<std::pair<int, no::toggle*>> longs;          // (requested rank, object)
         std::vector<std::pair<char, std::string>> declared;      // (kind, name) of what is declared so far
-        bool bad = false, any_late = false;
+        std::map<std::string, no::option*> kept_o;               // the references the declaration calls returned
+        std::map<std::string, no::multi_option*> kept_m;
+        std::map<std::string, no::toggle*> kept_t;
+        // short name, env, metavar: the same for the three kinds.  `cur` follows what the setters return when chaining
+        auto common_setters = [&](auto*& cur, const std::vector<std::string>& f, bool again, const std::string& env,
+                                  const std::string& metavar) {
+            if (f[3] != "-")
+            {
+                auto& r1 = cur->short_name(unhex(f[3]));
+                if (chain) cur = &r1;
+                if (twice) { auto& r2 = cur->short_name(unhex(f[3])); if (chain) cur = &r2; }
+            }
+            if (!env.empty())
+            {
+                auto& r1 = cur->env(env);
+                if (chain) cur = &r1;
+                if (twice) { auto& r2 = cur->env(env); if (chain) cur = &r2; }
+            }
+            const bool set_metavar = again ? !metavar.empty() : !(defaults && metavar == "ARG");
+            if (set_metavar)
+            {
+                if (twice) { auto& r0 = cur->metavar("A-TEMPORARY-AND-LONGER-METAVAR"); if (chain) cur = &r0; }
+                auto& r1 = cur->metavar(metavar);
+                if (chain) cur = &r1;
+            }
+        };
         auto declare = [&](bool late) {
             for (std::size_t i = 8; i < w.size(); i++)
             {
@@ -223,66 +307,110 @@ static std::string run_usage(const std::vector<std::string>& w)
                 if (is_late != late) continue;
                 char kind = static_cast<char>(is_late ? f[0][0] - 'A' + 'a' : f[0][0]);
                 // kind r: RE-REQUEST an option that is already declared (same name, kind, group), with another description,
-                // and apply the setters given in the word ("-"/n = none) to the object that is returned
-                const bool rerequest = kind == 'r';
-                if (rerequest)
+                // and apply the setters given in the word ("-"/n = none) to the object that is returned;
+                // kind k: apply them through the reference KEPT from the first request instead
+                const bool kept = kind == 'k';
+                const bool again = kind == 'r' || kept;
+                const std::string name = unhex(f[2]), descr = unhex(f[4]), env = unhex(f[5]), metavar = unhex(f[6]);
+                if (again)
                 {
                     kind = 0;
                     for (auto& kn : declared)
-                        if (kn.second == unhex(f[2])) kind = kn.first;
+                        if (kn.second == name) kind = kn.first;
                     if (!kind) { bad = true; return; }
                 }
                 std::size_t gi = std::stoul(f[1]);
                 if (gi >= groups.size() || !groups[gi]) { bad = true; return; }
-                no::group& g = *groups[gi];
-                const std::string name = unhex(f[2]), descr = unhex(f[4]), env = unhex(f[5]), metavar = unhex(f[6]);
                 const bool flag = f[8] == "1";
                 switch (kind)
                 {
                 case 'o':
                 {
-                    auto& o = g.option(name, descr);
-                    if (f[3] != "-") o.short_name(unhex(f[3]));
-                    if (!env.empty()) o.env(env);
-                    if (!rerequest || !metavar.empty()) o.metavar(metavar);
-                    if (f[7][0] == 's') o.default_value(unhex(f[7].substr(1)));
-                    if (flag) o.optional();
+                    no::option* cur = kept ? kept_o.at(name) : &request_option(gi, name, descr);
+                    if (!again) kept_o[name] = cur;
+                    else if (cur != kept_o.at(name)) { bad = true; return; }
+                    no::option* const object = cur;
+                    common_setters(cur, f, again, env, metavar);
+                    if (f[7][0] == 's')
+                    {
+                        // an lvalue that is changed after the call: the option must have taken a copy
+                        std::string v = unhex(f[7].substr(1));
+                        if (twice) { auto& r0 = cur->default_value(v + " and a longer temporary default"); if (chain) cur = &r0; }
+                        auto& r1 = cur->default_value(v);
+                        if (chain) cur = &r1;
+                        v.assign(40, '#');
+                    }
+                    if (flag) { auto& r1 = cur->optional(); if (chain) cur = &r1; }
+                    if (cur != object) { bad = true; return; }
                     break;
                 }
                 case 'm':
                 {
-                    auto& o = g.multi_option(name, descr);
-                    if (f[3] != "-") o.short_name(unhex(f[3]));
-                    if (!env.empty()) o.env(env);
-                    if (!rerequest || !metavar.empty()) o.metavar(metavar);
-                    if (f[7][0] == 'l') o.default_value(unwire_strs(f[7].substr(1)));
-                    if (flag) o.optional();
+                    no::multi_option* cur = kept ? kept_m.at(name) : &request_multi(gi, name, descr);
+                    if (!again) kept_m[name] = cur;
+                    else if (cur != kept_m.at(name)) { bad = true; return; }
+                    no::multi_option* const object = cur;
+                    common_setters(cur, f, again, env, metavar);
+                    if (f[7][0] == 'l')
+                    {
+                        std::vector<std::string> v = unwire_strs(f[7].substr(1));
+                        if (twice)
+                        {
+                            auto longer = v;
+                            longer.push_back("one more temporary element");
+                            auto& r0 = cur->default_value(longer);
+                            if (chain) cur = &r0;
+                        }
+                        auto& r1 = cur->default_value(v);
+                        if (chain) cur = &r1;
+                        v.assign(3, "changed after the call");
+                    }
+                    if (flag) { auto& r1 = cur->optional(); if (chain) cur = &r1; }
+                    if (cur != object) { bad = true; return; }
                     break;
                 }
                 case 't':
                 {
                     int rank = f[9] == "-" ? -1 : std::stoi(f[9]);
-                    no::toggle* t;
+                    no::toggle* cur;
+                    if (kept)
+                        cur = kept_t.at(name);
+                    else
                     {
-                        arena::use_slot slot(rank);
-                        t = &g.toggle(name, descr);
+                        arena::use_slot slot(again ? -1 : rank);
+                        cur = &request_toggle(gi, name, descr);
                     }
-                    if (f[3] != "-") t->short_name(unhex(f[3]));
-                    if (!env.empty()) t->env(env);
-                    if (!rerequest || !metavar.empty()) t->metavar(metavar);
-                    if (!rerequest || f[7] != "n") t->default_value(f[7] == "1");
-                    if (flag) t->allow_reverse();
-                    if (rank >= 0) longs.emplace_back(rank, t);
+                    if (!again) kept_t[name] = cur;
+                    else if (cur != kept_t.at(name)) { bad = true; return; }
+                    no::toggle* const object = cur;
+                    common_setters(cur, f, again, env, metavar);
+                    // default: 0|1 through default_value(bool), i<k> through default_value(int), n = not set
+                    if (f[7][0] == 'i')
+                    {
+                        if (twice) { auto& r0 = cur->default_value(f[7] == "i0" ? 5 : 0); if (chain) cur = &r0; }
+                        auto& r1 = cur->default_value(std::stoi(f[7].substr(1)));
+                        if (chain) cur = &r1;
+                    }
+                    else if (f[7] != "n" && !(defaults && !again && f[7] == "0"))
+                    {
+                        if (twice) { auto& r0 = cur->default_value(f[7] != "1"); if (chain) cur = &r0; }
+                        auto& r1 = cur->default_value(f[7] == "1");
+                        if (chain) cur = &r1;
+                    }
+                    if (flag) { auto& r1 = cur->allow_reverse(); if (chain) cur = &r1; }
+                    if (cur != object) { bad = true; return; }   // a setter returned something else than its object
+                    if (!again && rank >= 0) longs.emplace_back(rank, object);
                     break;
                 }
                 default:
                     bad = true;
                     return;
                 }
-                if (!rerequest) declared.emplace_back(kind, name);
+                if (!again) declared.emplace_back(kind, name);
             }
         };
         // the parse() calls of hist, on this parser object; whatever they do or raise, usage() must not notice
+        bool handler_differs = false;
         auto do_parses = [&]() {
             for (char h : hist)
             {
@@ -317,6 +445,31 @@ static std::string run_usage(const std::vector<std::string>& w)
                     pp = std::move(q);
                     continue;
                 }
+                else if (h == 'y')
+                {
+                    pp->greedy_postionals();   // a parsing mode, no part of the usage text
+                    continue;
+                }
+                else if (h == 'x')
+                {
+                    // the usual place of a usage() call: inside the handler of the exception a failed parse() raised
+                    const char* bad_argv[] = { "prog", "--no-such-option-was-declared-xyz" };
+                    std::string in_handler, after_handler;
+                    bool raised = false;
+                    try { auto parsed = pp->parse(2, bad_argv); (void)parsed; }
+                    catch (const std::exception&)
+                    {
+                        raised = true;
+                        std::stringstream hs;
+                        pp->usage(hs);
+                        in_handler = hs.str();
+                    }
+                    std::stringstream as;
+                    pp->usage(as);
+                    after_handler = as.str();
+                    if (raised && in_handler != after_handler) handler_differs = handler_differs_any = true;
+                    continue;
+                }
                 else if (h != 'e')
                     continue;
                 std::vector<const char*> argv;
@@ -346,10 +499,40 @@ static std::string run_usage(const std::vector<std::string>& w)
         {
             std::stringstream fresh;
             apply_fmt(fresh);
-            pp->usage(fresh);
+            std::ostream& returned = pp->usage(fresh);
+            if (&returned != &fresh) return "USAGE-RETURNS-ANOTHER-STREAM";
             a = fresh.str();
         }
-        if (badfmt) return "BADCASE";
+        if (badfmt || bad) return "BADCASE";
+        if (handler_differs) return "USAGE-IN-HANDLER-DIFFERS";
+        if (has('B'))
+        {
+            // the public pieces, called directly through the kept references on a stream in the same formatting state
+            auto block_of = [&](const no::base& o) {
+                std::stringstream bs, scratch;
+                apply_fmt(bs);
+                o.format(bs);
+                (void)o.format_name(); (void)o.format_default(); (void)o.is_optional(); (void)o.metavar(); (void)o.env();
+                (void)o.has_env(); (void)o.has_short_name(); (void)o.short_name(); (void)o.name();
+                o.format_synopsis(scratch);
+                o.format_value(scratch);
+                return bs.str();
+            };
+            for (auto& kv : kept_o) if (a.find(block_of(*kv.second)) == std::string::npos) return "BLOCK-NOT-IN-USAGE " + hex(kv.first);
+            for (auto& kv : kept_m) if (a.find(block_of(*kv.second)) == std::string::npos) return "BLOCK-NOT-IN-USAGE " + hex(kv.first);
+            for (auto& kv : kept_t) if (a.find(block_of(*kv.second)) == std::string::npos) return "BLOCK-NOT-IN-USAGE " + hex(kv.first);
+            for (auto* g : groups)
+            {
+                if (!g) continue;
+                std::stringstream gs;
+                apply_fmt(gs);
+                const no::group& cg = *g;
+                cg.usage(gs);
+                (void)cg.name(); (void)cg.description();
+                if (cg.empty() != gs.str().empty()) return "GROUP-EMPTY-BUT-PRINTED";
+                if (a.find(gs.str()) == std::string::npos) return "GROUP-SECTION-NOT-IN-USAGE " + hex(cg.name());
+            }
+        }
         do_parses();
         {
             std::stringstream again;
@@ -393,6 +576,7 @@ static std::string run_usage(const std::vector<std::string>& w)
     catch (const nitro::options::parser_error&) { return "DEV"; }
     catch (const nitro::options::parsing_error&) { return "USER"; }
     if (arena::overflow) return "ARENA-OVERFLOW";
+    if (handler_differs_any) return "USAGE-IN-HANDLER-DIFFERS";
     if (!order_ok) return "ORDER-NOT-FORCED";
     if (a == b && a == c && a == d) return "T " + hex(a);
     return "STREAMS-DIFFER " + hex(a) + " " + hex(b) + " " + hex(c) + " " + hex(d);
@@ -409,14 +593,20 @@ static std::string run_fp(const std::vector<std::string>& w)
     {
         sink_buf sb;
         std::ostream os(&sb);
-        nitro::io::terminal::format_padded(os, text, lp, mw);
+        std::ostream& ret = (lp == 0 && mw == 80) ? nitro::io::terminal::format_padded(os, text)
+                            : (mw == 80)          ? nitro::io::terminal::format_padded(os, text, lp)
+                                                  : nitro::io::terminal::format_padded(os, text, lp, mw);
+        if (&ret != &os) return "RETURNS-ANOTHER-STREAM";
         if (os.width() != 0) return "WIDTH-LEFT-SET";
         return "F " + hex(sb.data);
     }
     std::stringstream s;
     const std::string pre(static_cast<std::size_t>(indent), '#');
     s << pre;
-    nitro::io::terminal::format_padded(s, text, lp, mw);
+    std::ostream& ret = (lp == 0 && mw == 80) ? nitro::io::terminal::format_padded(s, text)
+                        : (mw == 80)          ? nitro::io::terminal::format_padded(s, text, lp)
+                                              : nitro::io::terminal::format_padded(s, text, lp, mw);
+    if (&ret != &s) return "RETURNS-ANOTHER-STREAM";
     if (s.width() != 0) return "WIDTH-LEFT-SET";
     std::string r = s.str();
     if (r.compare(0, pre.size(), pre) != 0) return "PRIOR-CONTENT-DAMAGED";
